@@ -479,6 +479,50 @@ def r8(F, R, w, mb):
     R.floor("C12-R8", 2)     # at least the non-blocking read of the loop and the blocking receive of the pause path
 
 
+def r9(F, R):
+    R.rule("C12-R9", "who may stop and wake a chain: ChainCommand::Pause is sent only from ChainProcess::pause, called only in the controller's Pause arm; "
+                     "ChainCommand::Resume only from ChainProcess::resume, called only in the Continue arm. A Resume sent from anywhere else (a flush that "
+                     "'holds the worker back' and lets it go again) wakes chains that pause() parked, without resume()")
+    cl = controller_loop(F)
+    ca = command_arms(cl) if cl is not None else None
+    if ca is None:
+        R.missing("C12-R9", "controller command loop")
+        return
+    arms, hdr, rbb = ca
+    raw = F.bodies.get(cl.path) or cl
+    rca = command_arms(raw) if raw is not cl else ca
+    n = 0
+    want = {"Pause": ("ChainProcess::pause", "send:Pause"), "Continue": ("ChainProcess::resume", "send:Resume")}
+    for b in sorted(F.bodies.values(), key=lambda x: x.path):
+        if not b.path.startswith(("sampler::", "<sampler::")):
+            continue
+        for bb, t in b.calls():
+            p_ = strip_generics(t["callee"].get("path", ""))
+            for cmd, (meth, op) in want.items():
+                direct = _is_op(b, t, op)
+                via = p_.endswith(meth)
+                if not (direct or via):
+                    continue
+                n += 1
+                site = "%s @%s" % (b.path, loc(t["span"]))
+                key = "%s:%s#%d" % (b.path, op if direct else meth.split("::")[-1], n)
+                if direct and strip_generics(b.path).endswith(meth):
+                    R.ok("C12-R9", key, site, "%s is sent by %s" % (op[5:], meth))
+                    continue
+                ok_ = False
+                if b.path == raw.path and rca is not None and cmd in rca[0]:
+                    others = [tt for c_, tt in rca[0].items() if c_ != cmd]
+                    ok_ = bb in raw.reach_from(rca[0][cmd], avoid=[rca[1]] + others)
+                if ok_:
+                    R.ok("C12-R9", key, site, "%s in the controller's %s arm" % (meth.split("::")[-1] if via else op, cmd))
+                else:
+                    R.bad("C12-R9", key, site, "%s outside the controller's %s arm: chains are %s without the user's %s()" % (
+                        meth if via else op, cmd, "parked" if cmd == "Pause" else "woken", "pause" if cmd == "Pause" else "resume"))
+    if n == 0:
+        R.missing("C12-R9", "senders of ChainCommand")
+    R.floor("C12-R9", 4)
+
+
 def r7(F, R, w):
     R.rule("C12-R7", "no draw without a look at the mailbox (shape-independent): in the chain worker the draw call is not reachable from the entry of "
                      "the worker, nor from a previous draw, without passing a receive on the chain's mailbox -- a chain that starts, or loops, "
@@ -527,10 +571,11 @@ def run(F, R, config=None):
     r5(F, R, w, mb)
     r6(F, R)
     r8(F, R, w, mb)
+    r9(F, R)
     R.assume("std::sync::mpsc::Receiver::recv blocks until a message arrives or all senders are gone; try_recv never blocks")
     R.assume("commands reach a chain only through its own mailbox channel (C10-R3 capture inventory)")
 
 
-FEATURE_RULES = {"C12-R1": "parallel", "C12-R2": "parallel", "C12-R3": "parallel", "C12-R4": "parallel", "C12-R5": "parallel", "C12-R6": "parallel", "C12-R7": "parallel", "C12-R8": "parallel"}
+FEATURE_RULES = {"C12-R1": "parallel", "C12-R2": "parallel", "C12-R3": "parallel", "C12-R4": "parallel", "C12-R5": "parallel", "C12-R6": "parallel", "C12-R7": "parallel", "C12-R8": "parallel", "C12-R9": "parallel"}
 CONFIGS = ["all", "default"]
 SELFTEST = True
